@@ -146,6 +146,7 @@ func ruleProvIssuer(c *Ctx, r *Rep) {
 		}
 		if d.body != nil && d.sign != nil {
 			drivers[fn] = d
+			pv.Opaque(d.body.Call.StaticCallee(), d.sign.Call.StaticCallee()) // described as calls, whatever their shape
 			if _, ok := byFn[fn]; !ok {
 				byFn[fn] = nil
 			}
@@ -681,28 +682,70 @@ func ruleProvKeyID(c *Ctx, r *Rep) {
 	for _, cs := range cases {
 		n := 0
 		for _, fn := range constructorsStoring(c, ev, cs.oid) {
-			// only the hashing constructors: those that call a hash
-			var write, sum *ssa.Call
-			var newHash *ssa.Call
-			for _, ci := range callsIn(fn) {
-				cc := ci.Common()
-				if cc.IsInvoke() && typeIs(cc.Value.Type(), "hash", "Hash") {
-					if cc.Method.Name() == "Write" {
-						write = ci.(*ssa.Call)
-					} else if cc.Method.Name() == "Sum" {
-						sum = ci.(*ssa.Call)
+			// only the hashing constructors: those that hash, themselves or through a module helper func([]byte) []byte
+			type digest struct {
+				write, sum, newHash *ssa.Call
+				input               []string  // what is hashed, in the constructor's frame
+				result              ssa.Value // the digest, in the constructor's frame
+			}
+			find := func(f *ssa.Function) *digest {
+				d := &digest{}
+				for _, ci := range callsIn(f) {
+					cc := ci.Common()
+					if cc.IsInvoke() && typeIs(cc.Value.Type(), "hash", "Hash") {
+						if cc.Method.Name() == "Write" {
+							d.write, _ = ci.(*ssa.Call)
+						} else if cc.Method.Name() == "Sum" {
+							d.sum, _ = ci.(*ssa.Call)
+						}
+					}
+					if calleeFullName(ci) == "(crypto.Hash).New" {
+						d.newHash, _ = ci.(*ssa.Call)
 					}
 				}
-				if calleeFullName(ci) == "(crypto.Hash).New" {
-					newHash = ci.(*ssa.Call)
+				if d.write == nil && d.sum == nil {
+					return nil
+				}
+				return d
+			}
+			d := find(fn)
+			if d != nil && d.write != nil && d.sum != nil {
+				d.input = pv.Origins(d.write.Call.Args[0])
+				d.result = d.sum
+			}
+			if d == nil {
+				for _, ci := range callsIn(fn) {
+					g := ci.Common().StaticCallee()
+					if g == nil || !c.InModule(g) || g.Blocks == nil || len(g.Params) != 1 || g.Signature.Results().Len() != 1 {
+						continue
+					}
+					hd := find(g)
+					if hd == nil {
+						continue
+					}
+					d = hd
+					if hd.write != nil && hd.sum != nil && hd.write.Call.Args[0] == ssa.Value(g.Params[0]) {
+						// the helper returns its digest
+						retOK := true
+						for _, ret := range returnsOf(g) {
+							if retResults(ret)[0] != ssa.Value(hd.sum) {
+								retOK = false
+							}
+						}
+						if retOK {
+							d.input = pv.Origins(ci.Common().Args[0])
+							d.result = ci.Value()
+						}
+					}
 				}
 			}
-			if write == nil && sum == nil {
+			if d == nil {
 				continue
 			}
 			n++
 			fk := c.FuncKey(fn)
-			if write == nil || sum == nil || newHash == nil {
+			write, sum, newHash := d.write, d.sum, d.newHash
+			if write == nil || sum == nil || newHash == nil || d.result == nil {
 				r.Bad("keyid-shape|"+fk, c.FnPos(fn), "crypto.SHA1.New(), Write(key bits), Sum(nil)", "incomplete")
 				continue
 			}
@@ -711,16 +754,24 @@ func ruleProvKeyID(c *Ctx, r *Rep) {
 				hname = c.constName(newHash.Call.Args[0].Type(), k.Value)
 			}
 			r.Check(hname == "crypto.SHA1", "keyid-hash|"+cs.name+"|"+fk, c.Pos(newHash.Pos()), "SHA-1 (RFC 5280 4.2.1.2 method 1)", hname)
-			o := pv.Origins(write.Call.Args[0])
+			o := d.input
 			ok := len(o) == 1 && strings.HasPrefix(o[0], "P("+fk+".") && strings.HasSuffix(o[0], cs.wantSuffix)
 			r.Check(ok, "keyid-input|"+cs.name+"|"+fk, c.Pos(write.Pos()), "hash input = <context>"+cs.wantSuffix, strings.Join(o, ","))
-			r.Check(write.Call.Value == sum.Call.Value && ssa.Value(newHash) == write.Call.Value && instrDominates(write, sum), "keyid-flow|"+cs.name+"|"+fk, c.Pos(sum.Pos()), "one hash: New, Write, Sum", "ok")
+			sumNil := false
+			if k, isK := sum.Call.Args[0].(*ssa.Const); isK && k.Value == nil {
+				sumNil = true
+			}
+			r.Check(write.Call.Value == sum.Call.Value && ssa.Value(newHash) == write.Call.Value && instrDominates(write, sum) && sumNil, "keyid-flow|"+cs.name+"|"+fk, c.Pos(sum.Pos()), "one hash: New, Write, Sum(nil)", "ok")
 			// the digest reaches the marshalled value unmodified
 			reaches := false
 			for _, ci := range callsIn(fn) {
 				if calleeFullName(ci) == "encoding/asn1.Marshal" {
+					marg := unwrapIface(ci.Common().Args[0])
+					if marg == d.result {
+						reaches = true
+					}
 					mo := pv.Origins(ci.Common().Args[0])
-					so := pv.Origins(sum)
+					so := pv.Origins(d.result)
 					if len(mo) == 1 && len(so) == 1 && (mo[0] == so[0] || strings.Contains(mo[0], "="+so[0])) {
 						reaches = true
 					}
@@ -987,29 +1038,31 @@ func ruleProvManip(c *Ctx, r *Rep) {
 		"PublicKey.PublicKey": cfg + ".Manipulations.TbsPublicKey",
 	}
 	seenT := map[string]bool{}
-	for _, fs := range storesIntoType(c, body, "cert.TbsCertificate") {
-		w, ok := wantTbs[fs.field]
-		if !ok {
-			continue // serial, unique ids, request key: PROV-SUBJECT / PROV-KEY
-		}
-		if o := pv.Origins(fs.st.Val); len(o) == 1 && !strings.Contains(o[0], ".Manipulations.") {
-			continue // e.g. PublicKey from the request
-		}
-		seenT[fs.field] = true
-		expectSet(r, "tbs-manipulation|"+fs.field, c.Pos(fs.st.Pos()), pv.Origins(fs.st.Val), "TBS field <- its manipulation", w)
-		guarded := false
-		for _, g := range guardsOf(fs.st.Block()) {
-			if bin, ok := g.Cond.(*ssa.BinOp); ok && bin.Op == token.NEQ && g.Truth {
-				if k, isK := bin.Y.(*ssa.Const); isK && k.Value == nil {
-					go2 := pv.Origins(bin.X)
-					if len(go2) == 1 && go2[0] == w {
-						guarded = true
+	pv.inFrames(body, 2, nil, func(fr frame) {
+		for _, fs := range storesIntoType(c, fr.fn, "cert.TbsCertificate") {
+			w, ok := wantTbs[fs.field]
+			if !ok {
+				continue // serial, unique ids, request key: PROV-SUBJECT / PROV-KEY
+			}
+			if o := pv.here(fs.st.Val); len(o) == 1 && !strings.Contains(o[0], ".Manipulations.") {
+				continue // e.g. PublicKey from the request
+			}
+			seenT[fs.field] = true
+			expectSet(r, "tbs-manipulation|"+fs.field, c.Pos(fs.st.Pos()), pv.here(fs.st.Val), "TBS field <- its manipulation", w)
+			guarded := false
+			for _, g := range guardsOf(fs.st.Block()) {
+				if bin, ok := g.Cond.(*ssa.BinOp); ok && bin.Op == token.NEQ && g.Truth {
+					if k, isK := bin.Y.(*ssa.Const); isK && k.Value == nil {
+						go2 := pv.here(bin.X)
+						if len(go2) == 1 && go2[0] == w {
+							guarded = true
+						}
 					}
 				}
 			}
+			r.Check(guarded, "tbs-manipulation-guard|"+fs.field, c.Pos(fs.st.Pos()), "applied only when that manipulation is configured (!= nil)", sprintf("%v", guarded))
 		}
-		r.Check(guarded, "tbs-manipulation-guard|"+fs.field, c.Pos(fs.st.Pos()), "applied only when that manipulation is configured (!= nil)", sprintf("%v", guarded))
-	}
+	})
 	for f := range wantTbs {
 		if !seenT[f] {
 			r.Bad("tbs-manipulation|"+f, c.FnPos(body), "manipulation applied to TBS field "+f, "never stored")
@@ -1034,16 +1087,32 @@ func ruleProvManip(c *Ctx, r *Rep) {
 		"SignatureValue":     scfg + ".Manipulations.SignatureValue",
 	}
 	seenO := map[string]bool{}
-	for _, fs := range storesIntoType(c, signer, "cert.Certificate") {
-		w, ok := wantOuter[fs.field]
-		if !ok {
-			r.Bad("outer-manipulation|unexpected|"+fs.field, c.Pos(fs.st.Pos()), "only the two outer fields are written after signing", fs.field)
-			continue
+	pv.inFrames(signer, 2, func(f *ssa.Function) bool { sf, _ := c.signFunc(); return f == sf }, func(fr frame) {
+		for _, fs := range storesIntoType(c, fr.fn, "cert.Certificate") {
+			w, ok := wantOuter[fs.field]
+			if !ok {
+				r.Bad("outer-manipulation|unexpected|"+fs.field, c.Pos(fs.st.Pos()), "only the two outer fields are written after signing", fs.field)
+				continue
+			}
+			seenO[fs.field] = true
+			expectSet(r, "outer-manipulation|"+fs.field, c.Pos(fs.st.Pos()), pv.here(fs.st.Val), "outer field <- its manipulation", w)
+			after := false
+			if fr.site == nil {
+				after = instrDominates(signCall, fs.st)
+			} else {
+				// in a helper: the helper is called after the signing call, on the certificate it returned
+				after = instrDominates(signCall, fr.site)
+				signed := false
+				for _, a := range fr.site.Common().Args {
+					if ex, ok := a.(*ssa.Extract); ok && ex.Tuple == ssa.Value(signCall) && ex.Index == 0 {
+						signed = true
+					}
+				}
+				after = after && signed
+			}
+			r.Check(after, "outer-manipulation-after-sign|"+fs.field, c.Pos(fs.st.Pos()), "applied to the certificate returned by the signing call", "ok")
 		}
-		seenO[fs.field] = true
-		expectSet(r, "outer-manipulation|"+fs.field, c.Pos(fs.st.Pos()), pv.Origins(fs.st.Val), "outer field <- its manipulation", w)
-		r.Check(instrDominates(signCall, fs.st), "outer-manipulation-after-sign|"+fs.field, c.Pos(fs.st.Pos()), "applied to the certificate returned by the signing call", "ok")
-	}
+	})
 	for f := range wantOuter {
 		if !seenO[f] {
 			r.Bad("outer-manipulation|"+f, c.FnPos(signer), "manipulation applied to outer field "+f, "never stored")
@@ -1071,13 +1140,19 @@ func ruleProvKey(c *Ctx, r *Rep) {
 		return
 	}
 	bk := c.FuncKey(body)
+	pv.Opaque(body)
 	prk, req := body.Params[1], body.Params[2]
 	// guards of the three key sources
 	type want struct{ prkNil, reqNil *bool }
 	T, F := true, false
-	check := func(key string, ins ssa.Instruction, w want) {
+	prkO, reqO := "P("+bk+"."+prk.Name()+")", "P("+bk+"."+req.Name()+")"
+	check := func(key string, ins ssa.Instruction, site ssa.CallInstruction, w want) {
 		var gotPrk, gotReq *bool
-		for _, g := range guardsOf(ins.Block()) {
+		gs := guardsOf(ins.Block())
+		if site != nil {
+			gs = append(gs, guardsOf(site.Block())...)
+		}
+		for _, g := range gs {
 			bin, ok := g.Cond.(*ssa.BinOp)
 			if !ok {
 				continue
@@ -1088,10 +1163,14 @@ func ruleProvKey(c *Ctx, r *Rep) {
 			}
 			isNil := (bin.Op == token.EQL) == g.Truth
 			v := isNil
-			switch bin.X {
-			case ssa.Value(prk):
+			xo := pv.here(bin.X)
+			if len(xo) != 1 {
+				continue
+			}
+			switch xo[0] {
+			case prkO:
 				gotPrk = &v
-			case ssa.Value(req):
+			case reqO:
 				gotReq = &v
 			}
 		}
@@ -1108,41 +1187,42 @@ func ruleProvKey(c *Ctx, r *Rep) {
 		r.Check(eq(gotPrk, w.prkNil) && eq(gotReq, w.reqNil), key, c.Pos(ins.Pos()), "reached exactly when key is "+show(w.prkNil)+" and request is "+show(w.reqNil), "key "+show(gotPrk)+", request "+show(gotReq))
 	}
 	n := 0
-	for _, ci := range callsIn(body) {
-		f := ci.Common().StaticCallee()
-		if f == nil {
-			continue
-		}
-		switch f.Name() {
-		case "GeneratePrivateKey":
-			n++
-			check("generate-only-without-key-and-request|"+bk, ci, want{&T, &T})
-			expectSet(r, "generate-algorithm|"+bk, c.Pos(ci.Pos()), pv.Origins(ci.Common().Args[1]), "generated with the configured key algorithm", "P("+bk+"."+body.Params[0].Name()+").KeyAlgorithm")
-		case "SetPrivateKey":
-			n++
-			check("reuse-existing-key|"+bk, ci, want{&F, nil})
-			r.Check(ci.Common().Args[1] == ssa.Value(prk), "reuse-existing-key-argument|"+bk, c.Pos(ci.Pos()), "the stored key itself", ci.Common().Args[1].String())
-		}
-	}
-	for _, fs := range storesIntoType(c, body, "cert.TbsCertificate") {
-		_ = fs
-	}
-	for _, b := range body.Blocks {
-		for _, ins := range b.Instrs {
-			st, ok := ins.(*ssa.Store)
-			if !ok {
+	samePkg := func(f *ssa.Function) bool { return f.Pkg != body.Pkg } // helpers of the body builder live in its package
+	pv.inFrames(body, 2, samePkg, func(fr frame) {
+		for _, ci := range callsIn(fr.fn) {
+			f := ci.Common().StaticCallee()
+			if f == nil {
 				continue
 			}
-			if fa, ok := st.Addr.(*ssa.FieldAddr); ok && fieldOfAddr(fa).Name() == "PublicKey" && strings.HasSuffix(ownerName(c, fa.X.Type()), "TbsCertificate") {
-				o := pv.Origins(st.Val)
-				if len(o) == 1 && strings.HasSuffix(o[0], ".TbsCsr.PublicKey") {
-					n++
-					check("request-key-only-without-key|"+bk, st, want{&T, &F})
-					expectSet(r, "request-key|"+bk, c.Pos(st.Pos()), o, "the request's public key", "P("+bk+"."+req.Name()+").TbsCsr.PublicKey")
+			switch f.Name() {
+			case "GeneratePrivateKey":
+				n++
+				check("generate-only-without-key-and-request|"+bk, ci, fr.site, want{&T, &T})
+				expectSet(r, "generate-algorithm|"+bk, c.Pos(ci.Pos()), pv.here(ci.Common().Args[1]), "generated with the configured key algorithm", "P("+bk+"."+body.Params[0].Name()+").KeyAlgorithm")
+			case "SetPrivateKey":
+				n++
+				check("reuse-existing-key|"+bk, ci, fr.site, want{&F, nil})
+				ao := pv.here(ci.Common().Args[1])
+				r.Check(len(ao) == 1 && ao[0] == prkO, "reuse-existing-key-argument|"+bk, c.Pos(ci.Pos()), "the stored key itself", strings.Join(ao, ","))
+			}
+		}
+		for _, b := range fr.fn.Blocks {
+			for _, ins := range b.Instrs {
+				st, ok := ins.(*ssa.Store)
+				if !ok {
+					continue
+				}
+				if fa, ok := st.Addr.(*ssa.FieldAddr); ok && fieldOfAddr(fa).Name() == "PublicKey" && strings.HasSuffix(ownerName(c, fa.X.Type()), "TbsCertificate") {
+					o := pv.here(st.Val)
+					if len(o) == 1 && strings.HasSuffix(o[0], ".TbsCsr.PublicKey") {
+						n++
+						check("request-key-only-without-key|"+bk, st, fr.site, want{&T, &F})
+						expectSet(r, "request-key|"+bk, c.Pos(st.Pos()), o, "the request's public key", reqO+".TbsCsr.PublicKey")
+					}
 				}
 			}
 		}
-	}
+	})
 	if n < 3 {
 		r.Undecided("floor:key-sources|"+bk, c.FnPos(body), sprintf("%d of the three key sources found (generate, reuse, request)", n))
 	}
@@ -1315,7 +1395,7 @@ func ruleProvRaw(c *Ctx, r *Rep) {
 				nOK++
 			}
 		case "!empty":
-			r.Check(joined == "make([]byte)" || joined == "K(nil)" || joined == "new([0]byte)@"+fk+"[:]", "empty|"+fk, c.Pos(ret.Pos()), "an empty byte string", joined)
+			r.Check(joined == "make([]byte)" || joined == "new([0]byte)@"+fk+"[:]", "empty|"+fk, c.Pos(ret.Pos()), "an empty byte string that is not nil (a nil value in an optional certificate field means absent)", joined)
 			nOK++
 		case "!null":
 			r.Check(joined == "G(encoding/asn1.NullBytes)", "null|"+fk, c.Pos(ret.Pos()), "asn1.NullBytes (05 00)", joined)
@@ -1338,6 +1418,103 @@ func ruleProvRaw(c *Ctx, r *Rep) {
 	}
 	if nOK < 3 {
 		r.Undecided("floor:raw-commands|"+fk, c.FnPos(fn), sprintf("%d of the three raw commands recognised", nOK))
+	}
+	// what the reader hands back stays what it is: on its way into the configuration an empty value is not turned into
+	// nil (the unique ids are optional fields: nil means absent)
+	for _, f2 := range c.Funcs {
+		for _, ci := range callsIn(f2) {
+			if ci.Common().StaticCallee() != fn {
+				continue
+			}
+			call, ok := ci.(*ssa.Call)
+			if !ok {
+				continue
+			}
+			key := "result-kept|" + c.FuncKey(f2) + "|" + strings.Join(pv.Origins(call.Call.Args[0]), ",")
+			bad := ""
+			seen := map[ssa.Value]bool{}
+			var walk func(v ssa.Value, depth int)
+			walk = func(v ssa.Value, depth int) {
+				if v == nil || seen[v] || depth > 6 || v.Referrers() == nil {
+					return
+				}
+				seen[v] = true
+				for _, u := range *v.Referrers() {
+					switch x := u.(type) {
+					case *ssa.Extract:
+						if x.Index == 0 || v != ssa.Value(call) {
+							walk(x, depth)
+						}
+					case *ssa.Phi:
+						walk(x, depth)
+					case *ssa.Slice:
+						walk(x, depth)
+					case *ssa.ChangeType:
+						walk(x, depth)
+					case *ssa.Store:
+						if al, ok := x.Addr.(*ssa.Alloc); ok && x.Val == v && al.Referrers() != nil {
+							for _, au := range *al.Referrers() {
+								if ld, ok := au.(*ssa.UnOp); ok && ld.Op == token.MUL {
+									walk(ld, depth)
+								}
+							}
+						}
+					case *ssa.Return:
+						idx := -1
+						for i, res := range x.Results {
+							if res == v {
+								idx = i
+							}
+						}
+						for _, caller := range c.Funcs {
+							for _, cj := range callsIn(caller) {
+								if cj.Common().StaticCallee() != x.Parent() || cj.Value() == nil {
+									continue
+								}
+								if x.Parent().Signature.Results().Len() == 1 {
+									walk(cj.Value(), depth+1)
+								} else if cj.Value().Referrers() != nil {
+									for _, eu := range *cj.Value().Referrers() {
+										if ex, ok := eu.(*ssa.Extract); ok && ex.Index == idx {
+											walk(ex, depth+1)
+										}
+									}
+								}
+							}
+						}
+					case *ssa.Call:
+						if bi, ok := x.Call.Value.(*ssa.Builtin); ok && bi.Name() == "append" {
+							if len(x.Call.Args) == 2 && x.Call.Args[1] == v && x.Call.Args[0] != v {
+								if k, isK := x.Call.Args[0].(*ssa.Const); isK && k.Value == nil {
+									bad = sprintf("%s: append(nil, value...) yields nil for an empty value", c.Pos(x.Pos()))
+								} else {
+									walk(x, depth)
+								}
+							}
+							continue
+						}
+						callee := x.Call.StaticCallee()
+						if callee == nil {
+							continue
+						}
+						switch calleeFullName(x) {
+						case "bytes.Clone", "slices.Clone":
+							walk(x, depth)
+							continue
+						}
+						if c.InModule(callee) && callee.Blocks != nil {
+							for i, a := range x.Call.Args {
+								if a == v && i < len(callee.Params) {
+									walk(callee.Params[i], depth+1)
+								}
+							}
+						}
+					}
+				}
+			}
+			walk(call, 0)
+			r.Check(bad == "", key, c.Pos(call.Pos()), "the value read is handed on as it is (copies keep an empty value non-nil)", bad)
+		}
 	}
 }
 
